@@ -35,6 +35,10 @@ type C08Case struct {
 	// therefore a possible I/O failure - can occur at every write site (header, block length prefix,
 	// block bytes, end marker, Close) with small data
 	BufSize int `json:"buf_size,omitempty"`
+	// From/To > 0: the reader decodes the block range [From, To) (ctx "from"/"to"); a source failure met while a
+	// block outside the range is being skipped over must be reported like any other
+	From int `json:"from,omitempty"`
+	To   int `json:"to,omitempty"`
 }
 
 // c08NewWriter builds the Writer of a scenario over sink.
@@ -56,17 +60,41 @@ func c08NewWriter(sink *fio.Sink, c C08Case) (*kio.Writer, error) {
 
 // c08NewReader builds the Reader of a scenario over src.
 func c08NewReader(src *fio.Source, c C08Case) (*kio.Reader, error) {
+	ctx := map[string]any{"jobs": max(c.ReadJobs, 1)}
+	if c.From > 0 {
+		ctx["from"] = c.From
+	}
+	if c.To > 0 {
+		ctx["to"] = c.To
+	}
 	if c.BufSize <= 0 {
-		return kio.NewReader(src, max(c.ReadJobs, 1))
+		if c.From <= 0 && c.To <= 0 {
+			return kio.NewReader(src, max(c.ReadJobs, 1))
+		}
+		return kio.NewReaderWithCtx(src, ctx)
 	}
 	ibs, err := bitstream.NewDefaultInputBitStream(src, uint(c.BufSize))
 	if err != nil {
 		return nil, err
 	}
-	return kio.NewReaderWithCtx2(ibs, map[string]any{"jobs": max(c.ReadJobs, 1)})
+	return kio.NewReaderWithCtx2(ibs, ctx)
+}
+
+// c08Want is the slice of the data a reader restricted to the block range of the scenario must return.
+func c08Want(c C08Case, data []byte) []byte {
+	bs := int(c.Cfg.BlockSize)
+	lo, hi := 0, len(data)
+	if c.From > 0 {
+		lo = min(len(data), (c.From-1)*bs)
+	}
+	if c.To > 0 {
+		hi = max(lo, min(len(data), (c.To-1)*bs))
+	}
+	return data[lo:hi]
 }
 
 type c08Pre struct {
+	want                   []byte // what the reader of the scenario must return (the data, or its block range)
 	data, stream           []byte
 	sinkWrites, sinkCloses int
 	srcReads               int
@@ -101,7 +129,8 @@ func c08Prepare(c C08Case) (*c08Pre, string) {
 	}
 	tr := ReadOn(rd, []int{buf}, 0, 1<<20)
 	rd.Close()
-	if tr.FirstErr != nil || tr.Panic != "" || !bytes.Equal(tr.Acc, p.data) {
+	p.want = c08Want(c, p.data)
+	if tr.FirstErr != nil || tr.Panic != "" || !bytes.Equal(tr.Acc, p.want) {
 		return nil, fmt.Sprintf("fault-free decode failed: %v %s", tr.FirstErr, tr.Panic)
 	}
 	p.srcReads = src.Reads
@@ -198,7 +227,7 @@ func c08Reader(c C08Case, p *c08Pre, k, k2 int) (msg string, fired bool) {
 	if k2 > 0 {
 		src.FailRead[k2] = true
 	}
-	desc := fmt.Sprintf("source-read fault at underlying call %d (second %d, sticky=%v, with-data=%v), reader jobs %d", k, k2, c.Sticky, c.WithData, c.ReadJobs)
+	desc := fmt.Sprintf("source-read fault at underlying call %d (second %d, sticky=%v, with-data=%v), reader jobs %d, block range [%d,%d)", k, k2, c.Sticky, c.WithData, c.ReadJobs, c.From, c.To)
 	var rd *kio.Reader
 	var err error
 	if pe := guard(func() error { rd, err = c08NewReader(src, c); return nil }); pe != nil {
@@ -217,15 +246,15 @@ func c08Reader(c C08Case, p *c08Pre, k, k2 int) (msg string, fired bool) {
 	if tr.Panic != "" {
 		return fmt.Sprintf("%s: the failure escaped Read as a panic: %s", desc, tr.Panic), fired
 	}
-	if !isPrefix(tr.Acc, p.data) {
-		return fmt.Sprintf("%s: bytes returned are not a prefix of the original (first difference at %d of %d returned; first error %v after %d bytes)", desc, firstDiff(tr.Acc, p.data), len(tr.Acc), tr.FirstErr, tr.AccAtErr), fired
+	if !isPrefix(tr.Acc, p.want) {
+		return fmt.Sprintf("%s: bytes returned are not a prefix of the original (first difference at %d of %d returned; first error %v after %d bytes)", desc, firstDiff(tr.Acc, p.want), len(tr.Acc), tr.FirstErr, tr.AccAtErr), fired
 	}
 	if tr.FirstErr == nil {
 		if !tr.SawEOF {
 			return desc + ": reader neither failed nor ended", fired
 		}
-		if !bytes.Equal(tr.Acc, p.data) {
-			return fmt.Sprintf("%s: source error turned into a clean end of stream after %d of %d bytes", desc, len(tr.Acc), len(p.data)), fired
+		if !bytes.Equal(tr.Acc, p.want) {
+			return fmt.Sprintf("%s: source error turned into a clean end of stream after %d of %d bytes", desc, len(tr.Acc), len(p.want)), fired
 		}
 		if fired && !c.WithData {
 			// complete and correct output although a read failed: only possible if the failing call was not needed
@@ -324,10 +353,30 @@ func drawC08(t *rapid.T) C08Case {
 	c.After = rapid.SampledFrom([]string{"stop", "close", "close2", "write-close"}).Draw(t, "after")
 	c.ReadJobs = uint(rapid.IntRange(1, 4).Draw(t, "rjobs"))
 	c.ReadBuf = rapid.SampledFrom([]int{0, 100, 4096}).Draw(t, "rbuf")
+	ranged := c.Side == "source-read" && rapid.IntRange(0, 2).Draw(t, "ranged") == 0
 	if c.Side != "sink-close" && rapid.IntRange(0, 2).Draw(t, "smallbuf") > 0 {
 		// small bitstream buffers: many flush / refill points with little data, at every write site
 		c.BufSize = rapid.SampledFrom([]int{1024, 1024, 1032, 2048, 4096, 16384}).Draw(t, "bufSize")
 		c.Data.Len = rapid.OneOf(rapid.IntRange(0, 3*c.BufSize), rapid.IntRange(0, 40*c.BufSize)).Draw(t, "lenSmallBuf")
+	}
+	if ranged {
+		// a block range over a stream of several small blocks read through a small bitstream buffer, so that
+		// refills (and the injected failure) fall inside blocks before, inside and after the range
+		c.Cfg.BlockSize = uint(rapid.SampledFrom([]int{1024, 4096}).Draw(t, "rbs"))
+		if c.BufSize <= 0 {
+			c.BufSize = 1024
+		}
+		nb := rapid.IntRange(2, 10).Draw(t, "rnb")
+		c.Data.Len = nb*int(c.Cfg.BlockSize) - rapid.IntRange(0, 700).Draw(t, "rshort")
+		c.From = rapid.IntRange(1, nb+1).Draw(t, "from")
+		c.To = rapid.IntRange(c.From, nb+2).Draw(t, "to")
+		switch rapid.IntRange(0, 3).Draw(t, "half") {
+		case 0:
+			c.From = 0
+		case 1:
+			c.To = 0
+		}
+		c.WriteSizes = nil
 	}
 	return c
 }
